@@ -9,7 +9,7 @@ import codec
 from props import c01
 
 PROP = "C11"
-LEAN_MODULES = ["Props.C11", "Props.C11F", "Props.Legacy"]
+LEAN_MODULES = ["Props.C11", "Props.C11F", "Props.Legacy", "Props.C11D"]
 RULE = (
     "case = (1-6 fields of mixed kinds, value list incl. runs of leading / trailing missing values, delimiter in ; , | tab :: ;; and delimiters with blanks such as ', ' '; ' ' | ', blank padding per token, a "
     "sequence of 1-6 further lines with short / exact / long token counts). One real Line(fields, delimiter=d): write "
@@ -26,7 +26,7 @@ ASSUMPTIONS = [
     "the delimiter is not made of white space only (tokens are stripped)",
 ] + c01.ASSUMPTIONS
 TRUSTED = c01.TRUSTED
-NOT_THEOREMS = ['padding clause when the delimiter itself contains a blank (Props.C11.main assumes a blank-free delimiter for that clause): evaluated per case']
+NOT_THEOREMS = ['delimiters that hold a blank, or share a character with a token without occurring in it as a substring (Props.C11.main and main_dom — the latter from the decidable domain, with the per-token law discharged for every kind — assume a blank-free delimiter whose characters do not occur in the tokens): the padding and splitting clauses are evaluated per case there']
 EXHAUSTIVE = {"quick": False, "thorough": False}
 DELIMS = [";", ",", "|", "\t", "::", ";;", ";", ", ", "; ", " | ", " :", "\t;"]
 
